@@ -36,9 +36,17 @@ MODELS = ["OptiVerif.Model.Eye", "OptiVerif.Model.NumList", "OptiVerif.Model.Fib
 RULE = ("cases = two-level NRZ waveforms (random / PRBS7 patterns of 64..256 slots, one PRBS13 record of 8191 slots (longer than the 4096-slot window, carried as electrical_signal(signal, noise)), 4-5 % / 95-96 % mark density with >= 16 marks at sigma = 5 %, both symbols present, sps in {8,16,32}, "
         "sps_resamp=128 (a few without resampling, tie only), levels a<b with b-a log-uniform in [1e-3,100] V and offsets "
         "{0,-d/2,-3d,+2d} plus pedestals |a|/(b-a) in {30,100,1000} of both signs, noise sigma in [0.5%,5%] of b-a, Bessel LPF at 0.7..1.0 R) each run twice (a third of the even-length ones as ONE electrical_signal(signal, noise) object evaluated three times with the twin built from that object's arrays afterwards, operands monitored for modification): as is and scaled by "
-        "alpha in [1e-3,1e3] (log-uniform) with an offset beta (up to 1000 swings, and 1e5..2e7 swings for a few), same numpy seed; call histories (earlier calls in the same process on grids of the same total size but other samples per slot, with and without sps_resamp); a positional twin GET_EYE(input, nslots, sps_resamp) for a quarter of the short records; degenerate inputs (constant, single level) for "
+        "alpha in [1e-3,1e3] (log-uniform) with an offset beta (up to 1000 swings, and 1e5..2e7 swings for a few), same numpy seed; call histories (earlier calls in the same process on grids of the same total size but other samples per slot, with and without sps_resamp); a positional twin GET_EYE(input, nslots, sps_resamp) for a quarter of the short records; two FIXED streams that do not depend on VERIF_SEED: 1 mV eyes at alpha=1000 vs alpha=0.3 with identical timing demanded, and one record swept over 150 numpy seeds; degenerate inputs (constant, single level) for "
         "the error branches.  non-trivial = both runs returned finite estimates; distinct by all parameters")
-PARTIAL = ["accuracy clauses (mu within 8 % of b-a, s in [sigma/2, 2 sigma + 3 %], mu0<threshold<mu1 strictly, t_right-t_left within "
+PARTIAL = ["'scaling leaves the timing outputs unchanged' is demanded EXACTLY (identical t_left, t_right, t_opt, i) on a fixed stream of 1 mV eyes "
+           "compared at 1 V (alpha=1000) and at 0.3 mV (alpha=0.3) — 200 records in quick, 900 in thorough, every one validated on the "
+           "unchanged tree (0 differences; also 0 of 9000 other record/amplitude pairs at 0.3, 0.5 and 1 mV) — and within ONE step of the "
+           "1/128 grid on the twins drawn from VERIF_SEED (any alpha in [1e-3, 1e3]): below about 0.1 mV of scaled amplitude the unchanged "
+           "code itself moves t_left/t_right/t_opt (once also i) by one grid step on 0.06 % (0.1 mV), 0.5 % (10 uV), 0.7 % (3 uV) and "
+           "1.7 % (1 uV) of the records, because shortest_int breaks ties with an ABSOLUTE tolerance of 1e-10 (reported as a finding)",
+           "the clauses are demanded for every state of numpy's global RNG only on a sweep of one fixed record under 150 numpy seeds "
+           "(quick) plus two records x 1000 seeds (thorough); all other cases run under one numpy seed each",
+           "accuracy clauses (mu within 8 % of b-a, s in [sigma/2, 2 sigma + 3 %], mu0<threshold<mu1 strictly, t_right-t_left within "
            "10 % of 1, t_opt midway within one grid step): oracle under fixed seeds, statistical",
            "equivariance of KMeans / gaussian_kde / sg.resample themselves (library behaviour): oracle compares the scaled run "
            "with the unscaled one (levels within 1 % of b-a, timing within one resampled grid step)",
@@ -56,11 +64,11 @@ R_BIT = 10e9
 BATCH_SEEDS = [61001, 61003]
 BATCH_SEEDS_THOROUGH = [61002, 61004, 61005, 61006, 61007, 61008, 61009]
 BATCH_COUNT = 100
-# one record under np.random.seed(0..299).  (Chosen among 28 candidate records x 300 seeds: the failure mode of a weaker KMeans
+# one record under np.random.seed(100..249) in quick (two more records x 1000 seeds in thorough).  (Chosen among 28 candidate records x 300 seeds: the failure mode of a weaker KMeans
 # initialisation — a top/bottom instead of a left/right split of the crossing points — needs about one numpy seed in 6000 on
 # records of this generator, so a sweep drawn afresh on every run would not show it reliably within the quick budget.)
 SWEEP_RECORDS = [{"sps": 32, "nsl": 126, "pattern": "random", "a": 0.0, "d": 0.01810991817099998, "sigma": 0.005, "bwf": 0.8,
-                  "seed": 340124608, "seed0": 0, "nseeds": 300}]
+                  "seed": 340124608, "seed0": 100, "nseeds": 150}]
 SWEEP_RECORDS_THOROUGH = [{"sps": 32, "nsl": 127, "pattern": "random", "a": -0.35, "d": 0.7, "sigma": 0.02, "bwf": 0.75, "seed": 1634154402,
                            "seed0": 0, "nseeds": 1000},
                           {"sps": 8, "nsl": 64, "pattern": "prbs", "a": 0.0, "d": 1.0, "sigma": 0.03, "bwf": 0.85, "seed": 77, "seed0": 1000, "nseeds": 1000}]
